@@ -513,9 +513,11 @@ class CGenerator:
             s += " ".join(n.storage) + " "
         if n.align:
             s += " ".join(self.visit(a) for a in n.align) + " "
-        if n.quals and isinstance(n.type, (c_ast.Struct, c_ast.Union, c_ast.Enum)):
-            # A declaration without declarators (const struct S {...};) has
-            # no TypeDecl to carry the qualifiers.
+        if n.quals and isinstance(
+            n.type, (c_ast.Struct, c_ast.Union, c_ast.Enum, c_ast.IdentifierType)
+        ):
+            # A declaration without declarators (const struct S {...}; or a
+            # struct member 'int const;') has no TypeDecl to carry the qualifiers.
             s += " ".join(n.quals) + " "
         s += self._generate_type(n.type)
         return s
